@@ -130,6 +130,11 @@ func (w *writer) Message() MessageWriter {
 
 // Free frees the writer and releases its internal resources.
 func (w *writer) Free() {
+	// The state is already released when the writer has failed or has been freed
+	if w.writerState == nil {
+		return
+	}
+
 	w.close()
 
 	if !w.releaseState && !w.releaseWriter {
